@@ -6,6 +6,9 @@
 // it.  An observation calls EVERY public query method of KVIndex for every field,
 // term and range of the universe given in the setup line.
 //
+// A request with "via":"batch" writes documents with AddDocTx on a write-only batch
+// (kvi.BulkWrite), which is how kvgraph feeds the index; the default is KVIndex.AddDoc.
+//
 // Isolation.  Opening a Badger store costs about a second of CPU and deleted keys
 // stay in Badger as versions that later scans step over, so a store per behaviour or
 // emptying the store between behaviours is not affordable for 10^5 behaviours.
@@ -314,6 +317,23 @@ func (h *handler) within(method string, f func()) *hangInfo {
 	}
 }
 
+// touch runs the queries that write to the store (the count queries store recomputed counters)
+// in the same order as observe does and drops their results.  The driver asks for it where a
+// full observation of the same history prefix is already made by another behaviour.
+func (h *handler) touch(idx *kvindex.KVIndex, specField string) *hangInfo {
+	field := h.path(specField)
+	for _, q := range []func(string) chan kvindex.KVTermCount{idx.FieldStringTermCounts, idx.FieldTermCounts, idx.FieldTermCounts} {
+		q := q
+		if hi := h.within("FieldTermCounts", func() {
+			for range q(field) {
+			}
+		}); hi != nil {
+			return hi
+		}
+	}
+	return nil
+}
+
 // observe calls every public query method for one field.
 func (h *handler) observe(idx *kvindex.KVIndex, specField string) (body map[string]interface{}) {
 	field := h.path(specField)
@@ -474,6 +494,7 @@ func (h *handler) Handle(req map[string]interface{}) interface{} {
 	}
 	idx := kvindex.NewIndex(h.kv)
 	steps := asList(req["steps"])
+	via, _ := req["via"].(string)
 	obsFlags := asList(req["obs"])
 	registered := map[string]bool{}
 	out := make([]interface{}, len(steps))
@@ -499,6 +520,12 @@ func (h *handler) Handle(req map[string]interface{}) interface{} {
 					resp["harness_err"] = derr.Error()
 					return nil
 				}
+				if via == "batch" {
+					// the way kvgraph writes index documents: AddDocTx on a write-only batch
+					return h.kv.BulkWrite(func(tx kvi.KVBulkWrite) error {
+						return idx.AddDocTx(tx, h.docID(st["d"].(string)), doc)
+					})
+				}
 				return idx.AddDoc(h.docID(st["d"].(string)), doc)
 			case "RemoveDoc":
 				return idx.RemoveDoc(h.docID(st["d"].(string)))
@@ -513,10 +540,39 @@ func (h *handler) Handle(req map[string]interface{}) interface{} {
 		if err != nil {
 			errs = append(errs, map[string]interface{}{"k": k, "op": op, "err": err.Error()})
 		}
+		mode := 1.0 // 0: no query, 1: every query, 2: only the queries that write (results dropped)
 		if k < len(obsFlags) {
-			if b, _ := obsFlags[k].(bool); !b {
-				continue
+			switch v := obsFlags[k].(type) {
+			case bool:
+				if !v {
+					mode = 0
+				}
+			case float64:
+				mode = v
 			}
+		}
+		if mode == 0 {
+			continue
+		}
+		if mode == 2 {
+			var hung *hangInfo
+			_, tpan := catch(func() error {
+				for _, f := range h.fields {
+					if registered[f] && hung == nil {
+						hung = h.touch(idx, f)
+					}
+				}
+				return nil
+			})
+			if tpan != "" {
+				resp["panic"] = map[string]interface{}{"k": k, "op": "observe", "panic": tpan}
+				break
+			}
+			if hung != nil {
+				resp["touch_hang"] = map[string]interface{}{"k": k, "hang": hung}
+				break
+			}
+			continue
 		}
 		body := map[string]interface{}{}
 		var opan string
